@@ -268,9 +268,11 @@ func (w *World) GenTx(t *rapid.T, r *Replica, only []types.TxType) (*types.Trans
 	case types.KillTx, types.UndelegateTx:
 		info.Rel = "none"
 	case types.KillInviteeTx:
-		tx.To, info.Rel = w.pickTarget(t, s, sender, []string{"invitee"})
+		// (strangers aim at invited / candidate addresses they did not invite)
+		tx.To, info.Rel = w.pickTarget(t, s, sender, []string{"invitee", "invitee", "notvalidated"})
 	case types.KillDelegatorTx:
-		tx.To, info.Rel = w.pickTarget(t, s, sender, []string{"delegator"})
+		// (strangers and former pools aim at identities that are not their delegators)
+		tx.To, info.Rel = w.pickTarget(t, s, sender, []string{"delegator", "delegator", "other"})
 	case types.DelegateTx:
 		tx.To, info.Rel = w.pickTarget(t, s, sender, []string{"other", "god", "other", "notvalidated"})
 	case types.ChangeGodAddressTx:
